@@ -11,6 +11,11 @@ COMP = "robotools/liquidhandling/composition.py"
 UT = "robotools/utils.py"
 
 MUTANTS = [
+    dict(id="sel-gt-7", expect=["C12"], force=True, edits=[(EVC, "            if bit_counter > 6:", "            if bit_counter > 7:")]),
+    dict(id="sel-plus-47", expect=["C12"], force=True, edits=[(EVC, "                selection += chr(bit_mask + 48)\n                bit_counter = 0", "                selection += chr(bit_mask + 47)\n                bit_counter = 0")]),
+    dict(id="sel-full-group-zero", expect=["C12"], edits=[(EVC, "                selection += chr(bit_mask + 48)\n                bit_counter = 0", "                selection += chr((bit_mask if bit_mask != 127 else 0) + 48)\n                bit_counter = 0")]),
+    dict(id="sel-rows-first", expect=["C12"], force=True, edits=[(EVC, "    for x in range(cols):\n        for y in range(rows):", "    for y in range(rows):\n        for x in range(cols):")]),
+    dict(id="selarray-plus-equals", expect=["C12"], edits=[(EVC, "        selection_array[well_index_dict[well]] = 1", "        selection_array[well_index_dict[well]] += 1")]),
     dict(id="evo-trough-min-r-7", expect=["C08"], edits=[(EVU, "        return 1 + c * labware.virtual_rows + r", "        return 1 + c * labware.virtual_rows + min(r, 7)")]),
     dict(id="fluent-row-mod-8", expect=["C08"], edits=[(FLU, "    r = labware.row_ids.index(row)", "    r = labware.row_ids.index(row) % 8")]),
     dict(id="evo-nrows-for-troughs", expect=[], silent=["C08"], edits=[(EVU, "        return 1 + c * labware.virtual_rows + r", "        return 1 + c * labware.n_rows + r")]),
